@@ -276,15 +276,21 @@ def documents(draw):
     collision = False
     clash_class = draw(st.integers(0, 9)) == 0
     reactions = []
-    local_pool = gids + ["kloc", "vloc"]
+    # a local parameter may carry the id of a global one - also of a global that a rule assigns - and even the same
+    # declared value: it still binds only inside its own reaction
+    local_pool = gids + ["kloc", "vloc"] + rule_params + rule_params
+    gvalue = {p["id"]: p["value"] for p in gparams}
     for j in range(draw(st.integers(0, 4))):
         rid = f"rxn{j}"
         locs = {}
         for _ in range(draw(st.integers(0, 2))):
             lid = draw(st.sampled_from(local_pool))
-            if lid in gids or any(lid in r["locals"] for r in reactions):
+            if lid in gvalue or any(lid in r["locals"] for r in reactions):
                 collision = True
-            locs[lid] = draw(gen.nice(0.1, 5))
+            if lid in gvalue and draw(st.booleans()):
+                locs[lid] = gvalue[lid]
+            else:
+                locs[lid] = draw(gen.nice(0.1, 5))
         names = rx_species + gids + list(locs) + (rule_species if draw(st.booleans()) else []) + rule_params
         tree = _kl_tree(draw, names, draw(st.integers(1, 3)))
         for lid in locs:                      # make sure each local parameter is actually used
